@@ -533,3 +533,17 @@ LEVEL_NOTE = ("Trusted: Coq kernel+VM, the Python->Gallina translator and the st
               "with vm_compute). Two genuine defects were repaired by fix: commits (Time.diff dropped the microsecond fields; closest/farthest compared whole seconds); "
               "they are listed as fixed and are reported again as violations if they return.")
 TECHNIQUE = "Coq proof (lia with Euclidean division) over translated code + differential correspondence for the hand-written glue"
+
+
+# the remaining method bodies of Time are translated whole from /repo on every run and the hand model is PROVED equal to them
+TRUSTED = list(TRUSTED) + [
+    "tools/vlib/pyfloat2gallina.py + tools/vlib/gens/g56_time_methods.py (Time.add / subtract / add_timedelta / subtract_timedelta / diff / __add__ / __sub__ / __rsub__ translated whole, "
+    "one translation of each operator per class of `other`; reading rules in the generator's docstring: DateTime.EPOCH.at(h, m, s, us).add/subtract(..).time() = the model's primitive "
+    "dt_add_time (hand: helpers.add_duration's translated normalisation, native datetime + timedelta with its range check), klass(microseconds=d) = what the Duration reports (d, |d| for "
+    "AbsoluteDuration), NotImplemented = E_NotImplemented; fails closed otherwise): model_is_code_time_add / _subtract / _add_timedelta / _subtract_timedelta / _diff / _operators replace the "
+    "former trust in the hand assembly of Model/TimeOfDay.v (closed under the global context)",
+]
+LEVEL_NOTE = LEVEL_NOTE + (" Model = code: coq/Gen/TimeMethods.v is translated from src/pendulum/time.py on every run (Time.add, subtract, add_timedelta, subtract_timedelta, diff, __add__, __sub__, "
+                           "__rsub__) and Proofs/TimeMethodsFacts.v proves each equal to Model/TimeOfDay.v for all arguments, so a semantic edit of a method body breaks a proof or fails closed "
+                           "(self-tested by mutation). Still a model primitive: the chain DateTime.EPOCH.at(..).add(..).time() = dt_add_time (composing it from the translated glue_DateTime_at / "
+                           "glue_DateTime_add of Gen/TzGlue.v is not done).")
